@@ -1602,7 +1602,7 @@ def error_scenarios(rng, count):
     kinds = ["type-add", "type-call", "name", "index", "value-derives", "attribute", "runtime-pop", "throw-string", "throw-number",
              "throw-error", "throw-subclass", "host-AttributeError", "host-CompileError", "host-ImportError", "host-IndexError",
              "host-NameError", "host-RuntimeError", "host-TypeError", "host-ValueError", "arity", "stack-overflow", "set-field", "range-type",
-             "throw-deep-subclass", "throw-builtin-subclass"]
+             "throw-deep-subclass", "throw-builtin-subclass", "recursive-name", "recursive-throw"]
     links = ["fn", "method", "static", "lambda", "fiber", "ctor", "bound"]
     for k in range(count):
         b = Builder()
@@ -1637,8 +1637,14 @@ def error_scenarios(rng, count):
             b.fn("earlier", []); b.try_(); b.throw(lit("old")); b.catch("e0"); b.end(); b.end(); b.expr(call(b.v("earlier")))
         # innermost: the failing statement
         n = len(chain)
+        if kind.startswith("recursive-"):
+            b.var("depth", lit(0))
         b.fn("step%d" % n, ["arg"])
         b.var("local", lit("live"))
+        if kind.startswith("recursive-"):
+            # the failing function calls itself three times through ONE call site first: the trace has one entry per active call,
+            # three of them identical
+            b.if_(bin_("<", b.v("depth"), lit(3))); b.expr(b.assign("depth", bin_("+", b.v("depth"), lit(1)))); b.ret(call(b.v("step%d" % n), b.v("arg"))); b.end()
         if rng.random() < 0.3:
             b.var("text", lit("x\ny"))
 
@@ -1659,6 +1665,8 @@ def error_scenarios(rng, count):
             elif kind.startswith("host-"): b.expr(call(b.v("host_fail"), lit(kind[5:])))
             elif kind == "arity": b.expr(call(b.v("step%d" % n)))
             elif kind == "stack-overflow": b.expr(call(b.v("step%d" % n), b.v("arg")))
+            elif kind == "recursive-name": b.print(b.v("undefined_thing"))
+            elif kind == "recursive-throw": b.throw(lit("thrown at depth 3"))
             elif kind == "set-field": b.expr(setf(lit(3), "f", lit(1)))
             elif kind == "range-type": b.print({"k": "range", "l": lit(1), "r": lit("x")})
         fail0 = fail
@@ -1927,7 +1935,8 @@ def snippet_scenarios(rng, count):
                  "uncaught-in-class-def", "closure-persist", "mutate-var", "throw-through-two-finally", "error-in-method",
                  "inspect-failed-fiber", "fail-in-module-fn", "use-after", "closure-escapes-failure", "closure-escapes-failure", "use-escaped-closure",
                  "use-escaped-closure", "closure-escapes-fiber-failure", "import-uncompilable", "import-uncompilable", "import-uncompilable-uncaught",
-                 "fiber-parked-in-finally", "try-finally-ok", "closure-over-root-local-child-fails", "assign-undeclared"]
+                 "fiber-parked-in-finally", "try-finally-ok", "closure-over-root-local-child-fails", "assign-undeclared",
+                 "shadow-core", "use-adapters", "use-adapters"]
     triples = [(a, c) for a in catalogue for c in catalogue if a != "reset" and c != "reset"]
     for k in range(count):
         n = rng.randint(2, 6)
@@ -1935,6 +1944,10 @@ def snippet_scenarios(rng, count):
         if k < len(triples) and k % 2 == 0:
             a, c = triples[(k // 2 * 7) % len(triples)]
             plan = ["def-var", "def-fn", "import", "throw-in-fiber", a, "reset", c, "use-after"]
+        elif k % 25 == 6:
+            # globals that shadow the iteration classes core.yl's own methods refer to (MapIter, FilterIter, StopIter are ordinary globals
+            # of main), then a reset: the adapters of a reset interpreter are those of a new one
+            plan = ["use-adapters", "shadow-core", "use-adapters"] + plan[:2] + ["reset", "use-adapters", "use-after"]
         elif k % 5 == 1:
             plan = ["throw-in-fiber"] + plan + ["inspect-failed-fiber"]
         elif k % 5 == 3:
@@ -2000,6 +2013,13 @@ def snippet_scenarios(rng, count):
                 b.try_(); b.print(inv(b.v("fib"), "has_finished")); b.print(inv(b.v("fib"), "call")); b.catch("e"); b.print(tup(lit("inspect"), call(b.v("type"), b.v("e")), get(b.v("e"), "context"))); b.end()
             elif kind == "fail-in-module-fn":
                 b.import_("lib", "lib"); b.print(inv(b.v("lib"), "fails"))
+            elif kind == "shadow-core":
+                b.var("MapIter", lit("shadowed MapIter %d" % si)); b.var("FilterIter", lit("shadowed FilterIter")); b.print(b.v("MapIter"))
+            elif kind == "use-adapters":
+                b.try_()
+                b.print(inv(inv(inv(vec(lit(1), lit(2), lit(3)), "iter"), "map", b.lam(["x"], lambda: bin_("*", b.v("x"), lit(2)))), "collect"))
+                b.print(inv(inv(inv(vec(lit(1), lit(2), lit(3)), "iter"), "filter", b.lam(["x"], lambda: bin_("!=", b.v("x"), lit(2)))), "collect"))
+                b.catch("e"); b.print(tup(lit("adapters failed"), call(b.v("type"), b.v("e")), get(b.v("e"), "context"))); b.end()
             elif kind == "use-after":
                 for nm in ("shared", "helper", "lib", "Kept", "Vec", "StopIter", "never_declared"):
                     b.try_(); b.print(b.v(nm)); b.catch("e"); b.print(tup(lit("undefined"), lit(nm))); b.end()
